@@ -175,6 +175,10 @@ pub trait Engine: Sync {
     fn run_job(&self, ctx: &JobCtx) -> JobResult;
     /// executed in a fresh process: re-execute the explicit plan of a replay document
     fn replay(&self, doc: &J) -> ReplayOutcome;
+    /// engine-specific helper process (simcheck aux <ID> args...)
+    fn aux(&self, _args: &[String]) -> i32 {
+        2
+    }
     /// reach probes that should be non-zero (warn when zero)
     fn expected_probes(&self, _tier: Tier) -> Vec<&'static str> {
         Vec::new()
